@@ -254,10 +254,12 @@ def run(tier, seed, replay=None):
             ret, strs = sc.regex_table(R, [v for v, _ in judged])
             fmt = sc.format_table(R, strs)
             try:
+                # the RAW document goes to Coq: Resolve.resolve_doc inlines the references there (the Python `resolve` above only
+                # feeds the regex / format tables and the dangling-reference diagnostic)
                 doc_cases.append("((%s : list (str * list str)), (%s : list (str * list str)), %s, (%s : list (json * bool)))" % (
                     cq_list(["(%s, %s)" % (cq_str(p), cq_list([cq_str(s) for s in l])) for p, l in ret.items()]),
                     cq_list(["(%s, %s)" % (cq_str(f), cq_list([cq_str(s) for s in l])) for f, l in fmt.items()]),
-                    cq_json(R), cq_list(["(%s, %s)" % (cq_json(v), cq_bool(b)) for v, b in judged])))
+                    cq_json(J2), cq_list(["(%s, %s)" % (cq_json(v), cq_bool(b)) for v, b in judged])))
                 doc_meta.append((doc, J, judged))
             except (TypeError, AssertionError):
                 pass
@@ -292,16 +294,24 @@ def run(tier, seed, replay=None):
                                    "what": "the document is not a valid Draft-6 schema: %s" % o})
         else:
             res.notes.append("metaschema check skipped: %s" % p.stderr[-300:])
-    codes, err = sc.eval_codes(["Elem", "Validate", "SerJson", "RunSer"], "run_doc_case", doc_cases, tag="c03d", shard=60)
+    codes, err = sc.eval_codes(["Elem", "Validate", "SerJson", "RunSer"], "run_doc_case_raw", doc_cases, tag="c03d", shard=60)
     for i, cs in sorted((codes or {}).items()):
         d0, J, judged = doc_meta[i]
+        if 11 in cs:
+            res.violation({"property": "C03", "kind": "oracle-in-coq", "doc": d0, "document": J,
+                           "what": "Resolve.resolve_doc cannot resolve the document's references (dangling or cyclic)"})
+            continue
         res.violation({"property": "C03", "kind": "oracle-in-coq", "doc": d0, "document": J, "values": judged, "finding": "C03-K25" if homonyms(d0) else None,
                        "what": "the serialized document, read as Draft 6 (Spec6.v, documented deviations), does not accept exactly what the element accepts"})
-    codes2, err2 = sc.eval_codes(["Elem", "Validate", "SerJson", "RunSer"], "run_ser_case", ser_cases, tag="c03s", shard=60)
+    codes2, err2 = sc.eval_codes(["Elem", "Validate", "SerJson", "RunSer", "RunSerCls"], "run_ser_case_c03", ser_cases, tag="c03s", shard=60)
     res.corr_error = err or err2
     # code 9 = the tree lies in the fragment of the meaning theorem C03_meaning (SerFrag.dslb, proved sound): there the
     # model document means what the model element means by theorem, so the implementation is tied by correspondence alone
-    stats["theorem_applies"] = {"trees": sum(1 for cs in (codes2 or {}).values() if 9 in cs), "of": len(ser_cases)}
+    # code 10 = the tree has object classes and satisfies the premises of C03_meaning_classes (ClsFrag.cdslb / defs_okb, proved sound):
+    # the document, with its references resolved in Coq, means what the tree means by theorem
+    stats["theorem_applies"] = {"trees": sum(1 for cs in (codes2 or {}).values() if 9 in cs or 10 in cs),
+                                "reference_free": sum(1 for cs in (codes2 or {}).values() if 9 in cs),
+                                "with_classes": sum(1 for cs in (codes2 or {}).values() if 10 in cs and 9 not in cs), "of": len(ser_cases)}
     res.corr_mismatches = [{"doc": ser_meta[i][0], "impl_document": ser_meta[i][1], "what": "SerJson.ser_doc differs from serialize_json's output"}
                            for i in sorted(codes2 or {}) if 1 in codes2[i]]
     res.witness_status = {"C03-K15": "fails" if stats["k15"] else "not-exercised"}
